@@ -64,6 +64,13 @@ theorem switchIsOtherOn_agrees (f : Bool → Str → Bool) (h : Generated.switch
   cases h
   all_goals (cases other <;> cases v <;> decide +kernel)
 
+/-- that condition is written twice in `apply_rule` (the loop that switches the others Off, the comprehension that counts
+them): EVERY place where it is written agrees with the model, on the whole domain -/
+theorem switchIsOtherOn_all_agree :
+    (Generated.switchIsOtherOnAll.all fun f =>
+      [true, false].all fun other => [true, false].all fun v => f other (stateStr v) == (other && v)) = true := by
+  decide +kernel
+
 theorem switchNoOtherOn_agrees (f : Nat → Bool) (h : Generated.switchNoOtherOn? = some f) (n : Nat) :
     f n = decide (n = 0) := by
   unfold Generated.switchNoOtherOn? at h
